@@ -101,7 +101,7 @@ def run_tlc(ws, module, cfg=None, *, workers=None, simulate=None, depth=None, se
     cfg = cfg or (module + '.cfg')
     if budget:
         timeout = budget
-    cmd = ['java', '-Xss' + xss, '-XX:+UseParallelGC']
+    cmd = ['java', '-Xss' + xss, '-XX:+UseParallelGC', '-Djava.io.tmpdir=' + ws]      # TLC/SANY scratch lands in the workspace (removed at exit)
     if workers and str(workers).isdigit() and int(workers) <= 4:
         cmd.append('-XX:ParallelGCThreads=2')
     if heap:
